@@ -103,7 +103,8 @@ def _cases(draw, tier):
     if draw(st.integers(0, 3)) == 0:
         s = draw(st.integers(0, top // 2))
         e = draw(st.integers(max(s, top // 2), top))
-        pre.setdefault('memory_zones', []).append({'name': 'GLOBAL', 'start': s, 'end': e})
+        zl = pre.setdefault('memory_zones', [])
+        zl.insert(draw(st.integers(0, len(zl))), {'name': 'GLOBAL', 'start': s, 'end': e})      # listed before or after the others
         general['origin'] = s
     if pre:
         cfg['predefined'] = pre
